@@ -1,4 +1,5 @@
 import LassoProofs.C02
+import LassoModel.Extracted
 /-
   C13 — clear() empties the interner completely and leaves it fully usable.
 -/
@@ -55,5 +56,11 @@ example : (match (Rodeo.new 255 2 1000).tryIntern C02.constEnv [1, 2, 3] true wi
       | .ok (r', k) => decide (k = 0 ∧ r'.len = 1)
       | _ => false)
     | _ => false) = true := by decide
+
+/-! ### Tie to the source
+
+`Rodeo.clear` in the model clears the table, the string vector and every block, unconditionally.  The
+body of `Rodeo::clear` regenerated from the source is exactly the three `clear()` calls. -/
+theorem clear_body_is_three_clears : Extracted.rodeoClearBody = .clears [.map, .strings, .arena] := by decide
 
 end Lasso.C13
